@@ -133,19 +133,11 @@ type ctx struct {
 	dataMax int
 
 	streamCases, mitmCases, authCases, leftoverCases, leftoverFailing int64
+	streamNontrivial, mitmApplied                                     int64
 }
 
 func (c *ctx) report(sig map[string]string, k kase, detail string) {
 	c.run.Report(sig, k, detail)
-}
-
-func allZero(a []int) bool {
-	for _, x := range a {
-		if x != 0 {
-			return false
-		}
-	}
-	return true
 }
 
 func sum(a []int) int {
@@ -330,6 +322,9 @@ func (c *ctx) runMitm(k kase) {
 		l++
 	}
 	tampered := !(l == len(gen) && l == len(del))
+	if tampered {
+		atomic.AddInt64(&c.mitmApplied, 1)
+	}
 	firstBad := 1 << 30
 	if tampered {
 		firstBad = len(ends)
